@@ -213,8 +213,21 @@ def main():
         # tuple layouts and data-frame columns
         ty = read("rust/src/types.rs")
         for tag, fn, var in (("order", "cast_order", "order"), ("trade", "cast_trade", "trade")):
-            m = re.search(r"pub fn %s\(%s: &\w+\) -> \w+ \{\s*\((.*?)\)\s*\}" % (fn, var), ty, re.S)
-            fs = [re.sub(r"\s+", "", x).replace(var + ".", "").replace(".into()", "") for x in split_top(m.group(1))] if m else ["?"]
+            # the body may bind some components with `let` before the tuple: substitute them back
+            mb = re.search(r"pub fn %s\(%s: &\w+\) -> \w+ \{(.*?)\n\}" % (fn, var), ty, re.S)
+            m = None
+            if mb:
+                body = re.sub(r"//[^\n]*", "", mb.group(1))
+                lets = dict(re.findall(r"let\s+(\w+)\s*=\s*([^;]+);", body))
+                rest = re.sub(r"let\s+\w+\s*=\s*[^;]+;", "", body).strip()
+                m = re.match(r"^\((.*)\)$", rest, re.S)
+            # conversions are immaterial for the field *order*: `x.into()`, `bool::from(x)`, `u8::from(x)`, `x as T`
+            def strip_conv(x):
+                x = re.sub(r"\s+", "", x)
+                x = re.sub(r"^[A-Za-z_][\w:]*::from\((.*)\)$", r"\1", x)
+                x = re.sub(r"as\w+$", "", x) if re.search(r"\)?as[ui]\d+$", x) else x
+                return x.replace(var + ".", "").replace(".into()", "")
+            fs = [strip_conv(lets.get(re.sub(r"\s+", "", x), x)) for x in split_top(m.group(1))] if m else ["?"]
             out.append("Definition tuple_%s : list string := %s." % (tag, coq_list(fs)))
         dp = read("src/bourse/data_processing.py")
         for tag, fn in (("trades", "trades_to_dataframe"), ("orders", "orders_to_dataframe")):
